@@ -22,6 +22,7 @@ func H_C06_order() {
 	bps := verif.Uint32("bps")
 	verif.Assume(bps >= 1 && bps <= 10000)
 	sw.newDenom = "uother"
+	sw.amountFirst = verif.Bool("controller-sets-amount-before-denom")
 	sw.newAmt = verif.BigInt("swapped-amount")
 	verif.Assume(sw.newAmt.IsPositive() && sw.newAmt.LT(math.NewIntWithDecimal(1, 60)))
 
